@@ -317,6 +317,11 @@ def generate(rng, tier, boost):
     for n in range(0x4f, 0x100):
         cases.append((803, [[[n]]]))
         cases.append((810, [rbytes(rng, rng.randrange(0, 4)), [n]]))
+        # an opcode and the plain integer of the same value, both added with `+` in one process, in both
+        # orders (the reverse-order second pass runs the other one): they compare equal as dict / cache keys
+        # but denote different tokens (seeded change C08-17)
+        cases.append((810, [b'\x51', n]))
+        cases.append((810, [b'\x52', [n]]))
     for L in LENS:
         d = rbytes(rng, L) if L < 4096 else bytes([rng.getrandbits(8)]) * L
         cases.append((803, [[d]]))
